@@ -33,6 +33,7 @@ type EOp struct {
 	RO     string // ro: visitor name
 
 	Spec *uefigen.File // ins: the generator's spec of Data (not part of the token)
+	Bad  bool          // ins: Data was cut so that NewFile rejects it (generator side only)
 }
 
 func (o EOp) Token() string {
@@ -336,6 +337,12 @@ func PC03(args []string) string {
 	r := RunEdit(img, ops)
 	if strings.HasPrefix(r.Stage, "harness-error") {
 		return r.Stage
+	}
+	if expect == "C" {
+		if r.Stage == "err-cli" && !r.Leftover {
+			return "ok"
+		}
+		return "FAIL expected-cli-error got " + r.Stage
 	}
 	if strings.HasPrefix(expect, "E") {
 		if r.Stage == "err-op "+expect[1:] {
